@@ -8,6 +8,7 @@ package main
 import (
 	"context"
 	"encoding/json"
+	"errors"
 	"flag"
 	"fmt"
 	"io"
@@ -842,36 +843,56 @@ func paramInt(f wsFrame, i int) int {
 
 // barrier: when it returns the client's receive loop has handled every frame sent before
 func (d *wsDriver) barrier() bool {
-	k := d.nextK
-	d.nextK++
-	v := uint64(70000 + k)
-	var res interface{}
-	done := make(chan *rpcbackend.RPCError, 1)
-	go func() { done <- d.rc.CallRPC(context.Background(), &res, "verif_barrier", v) }()
-	f, ok := d.nextFrame(longWait)
-	if !ok || f.method != "verif_barrier" {
-		d.failed = fmt.Sprintf("barrier frame not received (got %+v)", f)
-		return false
-	}
-	id, _ := parseReqID(f.idRaw)
-	select {
-	case e := <-done:
-		if e != nil {
-			d.failed = "barrier call failed: " + e.Message
+	for attempt := 0; ; attempt++ {
+		k := d.nextK
+		d.nextK++
+		v := uint64(70000 + k)
+		var res interface{}
+		done := make(chan *rpcbackend.RPCError, 1)
+		go func() { done <- d.rc.CallRPC(context.Background(), &res, "verif_barrier", v) }()
+		f, ok := d.nextFrame(longWait)
+		if !ok || f.method != "verif_barrier" {
+			d.failed = fmt.Sprintf("barrier frame not received (got %+v)", f)
 			return false
 		}
-	case <-time.After(longWait):
-		d.failed = "barrier call did not return"
-		return false
-	}
-	got := uint64(0)
-	if s, ok := res.(string); ok {
-		if p := parseHexJSON([]byte(`"` + s + `"`)); p != nil {
-			got = *p
+		id, _ := parseReqID(f.idRaw)
+		select {
+		case e := <-done:
+			if e != nil {
+				// Right after a drop the server has accepted the new connection before the client's reconnect hook has
+				// run: a barrier call registered in that gap is (correctly) failed by the hook like any call
+				// outstanding at the reconnect.  In the model: the call was started before the reconnect began.
+				last := -1
+				for i := len(d.ops) - 1; i >= 0 && i >= len(d.ops)-64; i-- {
+					if strings.HasPrefix(d.ops[i], "WDrop ") {
+						last = i
+						break
+					}
+				}
+				if attempt < 3 && last >= 0 && strings.Contains(e.Message, "FF22067") {
+					call, cdesc := fmt.Sprintf("WCall %d %d", k, id), fmt.Sprintf("barrier call k=%d id=%d started while the client was reconnecting", k, id)
+					d.ops = append(d.ops[:last], append([]string{call}, d.ops[last:]...)...)
+					d.dops = append(d.dops[:last], append([]string{cdesc}, d.dops[last:]...)...)
+					d.add(fmt.Sprintf("WCallRet %d OErrInternal", k), fmt.Sprintf("barrier call k=%d failed by the reconnect: %s", k, e.Message))
+					d.st.Hit("ws:barrier:caught-by-the-reconnect-hook")
+					continue
+				}
+				d.failed = "barrier call failed: " + e.Message
+				return false
+			}
+		case <-time.After(longWait):
+			d.failed = "barrier call did not return"
+			return false
 		}
+		got := uint64(0)
+		if s, ok := res.(string); ok {
+			if p := parseHexJSON([]byte(`"` + s + `"`)); p != nil {
+				got = *p
+			}
+		}
+		d.add(fmt.Sprintf("WBarrier %d %d %d", k, id, got), fmt.Sprintf("barrier k=%d id=%d", k, id))
+		return true
 	}
-	d.add(fmt.Sprintf("WBarrier %d %d %d", k, id, got), fmt.Sprintf("barrier k=%d id=%d", k, id))
-	return true
 }
 
 func (d *wsDriver) observeCall(cr callRes) string {
@@ -2593,6 +2614,164 @@ func runDropDuringHook(st *cv.Stats) interface{} {
 	}
 }
 
+// ---------------------------------------------------------------------------------------------
+// Directed history "the reconnect hook fails": calls are outstanding and subscriptions are configured when the
+// connection drops; on the re-established connection one resubscribe cannot be made (its parameter refuses to be
+// marshalled exactly once: buildRequest fails inside handleReconnect, which returns the error - the connection itself
+// stays healthy, so this is NOT the wedge of C18/drop-during-reconnect-hook-wedges-client); wsclient connects once
+// more and the second run of the hook succeeds.  Oracle (implementation alone): once the second hook has settled
+// (every subscription re-requested on the last connection, a fresh call answered) every call that was outstanding on
+// the first connection must have returned an error.  handleReconnect fails the calls before it attempts any
+// resubscribe (theorem C18_ws_reconnect_calls_before_resubscribe), so on a correct client they return during the
+// FIRST hook run; a call still blocked 3 s after the second one settled is a failing history.
+// The model expresses a failing hook as ERcSend false (after the request id was allocated); here it fails before the
+// allocation, which differs only in the request counter - hence no replay in Coq for this history.
+// ---------------------------------------------------------------------------------------------
+type flakyParam struct {
+	failNext int32
+	tag      int
+}
+
+func (p *flakyParam) MarshalJSON() ([]byte, error) {
+	if atomic.LoadInt32(&p.failNext) > 0 {
+		atomic.AddInt32(&p.failNext, -1)
+		return nil, errors.New("cannot be marshalled right now")
+	}
+	return []byte(fmt.Sprintf(`"flaky-%d"`, p.tag)), nil
+}
+
+func runHookAbortHistory(st *cv.Stats, nCalls, nSubs, flakyPos int) interface{} {
+	st.Hit(fmt.Sprintf("ws:directed:reconnect-hook-fails:calls=%d:subs=%d", nCalls, nSubs))
+	srv := newWSServer()
+	defer srv.srv.Close()
+	ctx, cancelAll := context.WithCancel(context.Background())
+	defer cancelAll()
+	rc := rpcbackend.NewWSRPCClient(&wsclient.WSConfig{HTTPURL: srv.srv.URL, InitialDelay: 500 * time.Microsecond, MaximumDelay: 2 * time.Millisecond})
+	if err := rc.Connect(ctx); err != nil {
+		return nil
+	}
+	defer rc.Close()
+	var hist []string
+	say := func(f string, a ...interface{}) { hist = append(hist, fmt.Sprintf(f, a...)); jlog(f, a...) }
+	conn := 0
+	select {
+	case conn = <-srv.accepts:
+	case <-time.After(longWait):
+		return nil
+	}
+	next := func(wait time.Duration) (wsFrame, bool) {
+		select {
+		case f := <-srv.frames:
+			return f, true
+		case <-time.After(wait):
+			return wsFrame{}, false
+		}
+	}
+	flaky := &flakyParam{tag: flakyPos}
+	for i := 0; i < nSubs; i++ {
+		var p interface{} = i
+		if i == flakyPos {
+			p = flaky
+		}
+		done := make(chan *rpcbackend.RPCError, 1)
+		go func() {
+			_, e := rc.Subscribe(ctx, "verif", p)
+			done <- e
+		}()
+		f, ok := next(longWait)
+		if !ok || f.method != "eth_subscribe" {
+			return nil
+		}
+		srv.send(conn, fmt.Sprintf(`{"jsonrpc":"2.0","id":%s,"result":"%s"}`, f.idRaw, hexStr(uint64(0xd00+i))))
+		select {
+		case e := <-done:
+			if e != nil {
+				return nil
+			}
+		case <-time.After(longWait):
+			return nil
+		}
+	}
+	say("%d subscriptions configured and confirmed (number %d has a parameter that can refuse to be marshalled)", nSubs, flakyPos)
+	type ret struct {
+		k int
+		e *rpcbackend.RPCError
+	}
+	rets := make(chan ret, nCalls)
+	for k := 0; k < nCalls; k++ {
+		k := k
+		go func() {
+			var out interface{}
+			rets <- ret{k, rc.CallRPC(ctx, &out, "verif_call", k)}
+		}()
+		f, ok := next(longWait)
+		if !ok || f.method != "verif_call" {
+			return nil
+		}
+	}
+	say("%d calls outstanding (the server has their frames and does not answer)", nCalls)
+	atomic.StoreInt32(&flaky.failNext, 1)
+	srv.closeConn(conn)
+	say("server closes the connection; the next resubscribe of subscription %d will fail once", flakyPos)
+	// connection 2 (hook fails), connection 3 (hook succeeds: nSubs eth_subscribe frames on it)
+	last, seen := -1, 0
+	deadline := time.After(longWait)
+settle:
+	for {
+		select {
+		case c := <-srv.accepts:
+			last, seen = c, 0
+			say("connection %d accepted", c)
+		case f := <-srv.frames:
+			if f.method == "eth_subscribe" && f.conn == last {
+				seen++
+			}
+			if seen == nSubs && last >= conn+2 {
+				break settle
+			}
+		case <-deadline:
+			return nil // inconclusive: the client did not get that far (not this oracle's business)
+		}
+	}
+	if atomic.LoadInt32(&flaky.failNext) != 0 {
+		return nil
+	}
+	say("all %d subscriptions re-requested on connection %d (the hook failed once before)", nSubs, last)
+	// (No further frame is sent by this history: after a hook failure firefly-common's wsclient runs TWO send loops
+	// on the new connection - it starts a new one without stopping the old - and two sends close together end in
+	// gorilla's "concurrent write to websocket connection" panic.  Hence also one subscription only.)
+	time.Sleep(30 * time.Millisecond)
+	got := map[int]bool{}
+	noErr := []int{}
+	timeout := time.After(returnWait)
+collect:
+	for len(got) < nCalls {
+		select {
+		case r := <-rets:
+			got[r.k] = true
+			if r.e == nil {
+				noErr = append(noErr, r.k)
+			}
+		case <-timeout:
+			break collect
+		}
+	}
+	if len(got) == nCalls && len(noErr) == 0 {
+		return nil
+	}
+	missing := []int{}
+	for k := 0; k < nCalls; k++ {
+		if !got[k] {
+			missing = append(missing, k)
+		}
+	}
+	say("calls still blocked %v after the reconnect settled: %v; calls that returned without an error: %v", returnWait, missing, noErr)
+	return map[string]interface{}{
+		"what":    fmt.Sprintf("%d of %d calls that were outstanding when the connection dropped did not complete with an error although the connection was re-established (the first run of the reconnect hook failed at a resubscribe, the second succeeded)", len(missing)+len(noErr), nCalls),
+		"history": hist,
+	}
+}
+
 // The parent process: runs the harness proper as a child.  The clients under test start goroutines of their own; a
 // panic there (e.g. a send on a closed notifications channel) ends the process and cannot be recovered in-process.
 // The parent then reports the journal of the sequence that was running as a failing input of the implementation.
@@ -2795,6 +2974,19 @@ func main() {
 			continue
 		}
 		addCase(coq, d)
+	}
+	// ---- WebSocket: directed histories in which the reconnect hook fails once (calls must complete all the same)
+	hookPlans := [][3]int{{1, 1, 0}, {2, 1, 0}, {3, 1, 0}, {8, 1, 0}, {1, 1, 0}, {16, 1, 0}}
+	if thorough {
+		for i := 0; i < 30; i++ {
+			hookPlans = append(hookPlans, [3]int{1 + r.Intn(32), 1, 0})
+		}
+	}
+	for _, hp := range hookPlans {
+		jlog("=== WebSocket: the reconnect hook fails once (%d calls outstanding, %d subscriptions)", hp[0], hp[1])
+		if f := runHookAbortHistory(st, hp[0], hp[1], hp[2]); f != nil {
+			fails = append(fails, f)
+		}
 	}
 	jlog("=== WebSocket: the connection is reset while handleReconnect is resubscribing")
 	if f := runDropDuringHook(st); f != nil {
